@@ -31,6 +31,42 @@ use crate::*;
 pub const PROP: Prop = Prop { name: "C11", gen: gen_c11, run };
 pub const PROP12: Prop = Prop { name: "C12", gen: gen_c12, run };
 
+/// the seeded generator, or - for seeds 0 and 1 - a constant stream of all-zero / all-one words
+/// (the extreme draws: `random::<f32>()` == 0.0, respectively the largest value below 1)
+pub enum AnyRng {
+    Seeded(Sm),
+    Const(u64),
+}
+impl AnyRng {
+    pub fn new(seed: u64) -> Self {
+        match seed {
+            0 => AnyRng::Const(0),
+            1 => AnyRng::Const(u64::MAX),
+            s => AnyRng::Seeded(Sm::new(s)),
+        }
+    }
+}
+impl rand::RngCore for AnyRng {
+    fn next_u32(&mut self) -> u32 {
+        match self {
+            AnyRng::Seeded(s) => s.next_u32(),
+            AnyRng::Const(c) => *c as u32,
+        }
+    }
+    fn next_u64(&mut self) -> u64 {
+        match self {
+            AnyRng::Seeded(s) => s.next_u64(),
+            AnyRng::Const(c) => *c,
+        }
+    }
+    fn fill_bytes(&mut self, dst: &mut [u8]) {
+        match self {
+            AnyRng::Seeded(s) => s.fill_bytes(dst),
+            AnyRng::Const(c) => dst.iter_mut().for_each(|b| *b = *c as u8),
+        }
+    }
+}
+
 struct Alpha(Vec<i64>);
 impl Distribution<i64> for Alpha {
     fn sample<R: rand::Rng + ?Sized>(&self, rng: &mut R) -> i64 {
@@ -55,8 +91,8 @@ fn ratio(n: &Tree, d: &Tree) -> Option<f64> {
     }
     Some(n as f64 / d as f64)
 }
-fn hist(n: usize, seed: u64, mut f: impl FnMut(&mut Sm) -> Vec<i64>) -> Tree {
-    let mut rng = Sm::new(seed);
+fn hist(n: usize, seed: u64, mut f: impl FnMut(&mut AnyRng) -> Vec<i64>) -> Tree {
+    let mut rng = AnyRng::new(seed);
     let mut h: BTreeMap<Vec<i64>, u64> = BTreeMap::new();
     for _ in 0..n {
         *h.entry(f(&mut rng)).or_insert(0) += 1;
@@ -198,10 +234,10 @@ fn run(input: &Tree) -> Option<Tree> {
             let instrs: Vec<PushInstruction> = (0..k as i64).map(PushInstruction::push_int).collect();
             let d = instrs.into_distribution().ok()?;
             let genes: Vec<PushGene> = match p.get(2)?.int()? {
-                0 => d.into_gene_generator().into_collection_generator(n).sample(&mut Sm::new(seed)),
+                0 => d.into_gene_generator().into_collection_generator(n).sample(&mut AnyRng::new(seed)),
                 1 => {
                     let c = ratio(p.get(3)?, p.get(4)?)? as f32;
-                    d.into_gene_generator_with_close_probability(c).into_collection_generator(n).sample(&mut Sm::new(seed))
+                    d.into_gene_generator_with_close_probability(c).into_collection_generator(n).sample(&mut AnyRng::new(seed))
                 }
                 _ => return None,
             };
@@ -242,6 +278,16 @@ fn gen_c11(tier: &str, rng: &mut Sm) -> Gen {
             }
             g.inputs.push(case(rng, n, tl![A(2), tv(&bits)]));
             g.inputs.push(case(rng, n, tl![A(3), tv(&bits)]));
+            // the extreme random streams (every draw 0.0 / every draw the largest value below 1) at the
+            // degenerate rates: rate 0 must still be the identity, rate 1 must still flip everything
+            for extreme in [0i64, 1] {
+                for (rn, rd) in [(0i64, 1i64), (1, 1)] {
+                    for kind in [0i64, 1, 9] {
+                        let gns = if kind == 9 { &tagged } else { &bits };
+                        g.inputs.push(tl![a(extreme), A(3), tl![a(kind), a(rn), a(rd), tv(gns)]]);
+                    }
+                }
+            }
             // UMAD: tagged parent genes 0..len-1, disjoint new-gene alphabet
             let parent: Vec<i64> = (0..len as i64).collect();
             for ((an, ad), (dn, dd)) in [((0, 1), (0, 1)), ((1, 4), (1, 4)), ((1, 2), (1, 8)), ((1, 1), (0, 1)), ((0, 1), (1, 1)), ((1, 2), (1, 1)), ((1, 1), (1, 2)), ((3, 4), (3, 7))] {
